@@ -363,8 +363,13 @@ inductive Op where
   | send (from_ to : Addr) (amt : Coins)
   /-- bank `MsgMultiSend`: one input (the sum), several outputs -/
   | msend (from_ : Addr) (outs : List (Addr × Coins))
-  /-- `InputOutputCoinsProv` with several inputs and one output (the exchange module's route) -/
+  /-- bank keeper `InputOutputCoinsProv` with several inputs and one output (one restriction call
+  per input) -/
   | iosend (ins : List (Addr × Coins)) (to : Addr)
+  /-- bank keeper `SendCoins` under `quarantine.WithBypass(ctx)`: how the exchange module pays
+  settlements and payments (x/exchange/keeper/keeper.go:204, payments.go:275 — creating the order /
+  accepting the payment counts as the receiver's acceptance) -/
+  | bsend (from_ to : Addr) (amt : Coins)
   | accept (to : Addr) (froms : List Addr) (perm : Bool)
   | decline (to : Addr) (froms : List Addr) (perm : Bool)
   /-- keeper `AddQuarantinedCoins` for a sender *set* plus the matching transfer of the coins
@@ -397,6 +402,9 @@ def ioSend (s : State) (ins : List (Addr × Coins)) (to : Addr) : Except Err Sta
   if ins.isEmpty || !ins.all (fun i => coinsValid i.2) then .error .invalid
   else bankTransfers s false (ins.map fun i => ⟨i.1, to, i.2⟩)
 
+def bypassSend (s : State) (from_ to : Addr) (amt : Coins) : Except Err State :=
+  if !coinsValid amt then .error .invalid else bankTransfers s true [⟨from_, to, amt⟩]
+
 def qAdd (s : State) (to : Addr) (froms : List Addr) (amt : Coins) (payer : Addr) : Except Err State :=
   if froms.isEmpty || !coinsValid amt then .error .invalid else
   match bankTransfers s true [⟨payer, s.holder, amt⟩] with
@@ -411,6 +419,7 @@ def exec (s : State) : Op → Except Err (State × Coins)
   | .send f t c => (msgSend s f t c).map (·, [])
   | .msend f outs => (msgMultiSend s f outs).map (·, [])
   | .iosend ins t => (ioSend s ins t).map (·, [])
+  | .bsend f t c => (bypassSend s f t c).map (·, [])
   | .accept t fs p => msgAccept s t fs p
   | .decline t fs p => (msgDecline s t fs p).map (·, [])
   | .qadd t fs c p => (qAdd s t fs c p).map (·, [])
